@@ -4,6 +4,10 @@ HERE = os.path.dirname(os.path.dirname(os.path.abspath(__file__)))
 props = [json.loads(l) for l in open(os.path.join(HERE, "properties.jsonl"))]
 TECH = "contracts on the real source; AST -> VC (own symbolic executor); z3 + cvc5; counter-models replayed natively"
 
+TECH_PARTIAL = ("contract-based deductive verification of the listed functions (contracts on the real source; AST -> VC by pyvc; z3 + cvc5) decides the listed clauses; "
+                "the rest of the property is covered only by bounded native stand-ins on the real code, labelled bounded and not counted as proved")
+TECH_BOUNDED = ("bounded native exploration of the real code (stand-in, not a proof): the property is stated through xonsh's lexer, which no contract can use as a specification; "
+                "contract-based deductive verification (pyvc, z3) covers two supporting asserts only")
 CLAIMED = {
  "C14": dict(
    category="proof",
@@ -317,7 +321,7 @@ for p in props:
             "engine": "pyvc",
             "level_claimed": {"category": c["category"], "text": c["text"], "design_ref": c["design"]},
             "level_note": c["note"],
-            "technique": c.get("technique", TECH),
+            "technique": c.get("technique", TECH if c["category"] == "proof" else (TECH_PARTIAL if c["category"] == "other" else TECH_BOUNDED)),
         })
 na = []
 for p in props:
